@@ -12,7 +12,7 @@ import (
 // R-FMT (C09): the printf translation tables.
 
 func init() {
-	register("R-FMT", "printf translation: (LETTERS) the conversion letters with a case in parseFmtTypes are exactly d i o x X u c s e E f g G (plus the documented a A) and the default returns an error; (TAGS) every type tag parseFmtTypes can emit has a case in sprintf's argument-conversion switch; (COUNT) `len(types) > len(args)` returns an error before any args[i] is read; (STAR) each `*` in a specification appends one integer tag, inside the flag-scanning loop; (CHAR) %c decides between 'first character of a string' and 'character with this code' with the same classifier comparisons use (isTrueStr); (GPREC) some control flow depends on 'verb is g/G and no precision was given', because Go's default %g precision (shortest) differs from C's (6); (FASTPATH) value.str's strconv fast path is guarded by equality with the exact constant format whose precision it hard-codes", ruleFmt)
+	register("R-FMT", "printf translation: (LETTERS) the conversion letters with a case in parseFmtTypes are exactly d i o x X u c s e E f g G (plus the documented a A) and the default returns an error; (TAGS, COUNT, CHAR: sprintf evaluated on its SSA form for one conversion at a time) for every type tag parseFmtTypes can emit, every successful path appends a converted (non-nil) argument; with a conversion and no argument every path ends in an error and the argument list is never indexed; (STAR) each `*` in a specification appends one integer tag, inside the flag-scanning loop; %c classifies its argument with the same classifier comparisons use (isTrueStr) before anything else; (GPREC) some control flow depends on 'verb is g/G and no precision was given', because Go's default %g precision (shortest) differs from C's (6); (FASTPATH) value.str's strconv fast path is guarded by equality with the exact constant format whose precision it hard-codes", ruleFmt)
 }
 
 func ruleFmt(c *Ctx) {
